@@ -32,7 +32,7 @@ def stripMD (d : ModelData) : ModelData :=
 
 def stripFH (h : FileHeader) : FileHeader :=
   { h with stackSize := 0, runtimeSize := 0, vertexOffsets := Arr3.rep 0, indexOffsets := Arr3.rep 0,
-           vertexBufferSize := Arr3.rep 0, indexBufferSize := Arr3.rep 0 }
+           vertexBufferSize := Arr3.rep 0, indexBufferSize := Arr3.rep 0, lodCount := 0 }
 
 /-- the sub-mesh record a mesh row points at (`default` outside the table) -/
 def firstSub (subs : List Submesh) (x : Mesh) : Submesh := subs[x.submeshIndex.toNat]?.getD default
@@ -40,7 +40,7 @@ def firstSub (subs : List Submesh) (x : Mesh) : Submesh := subs[x.submeshIndex.t
 /-- every mesh of a used LOD starts at its first sub-mesh's index offset (what the first loop of
 `update_headers` assigns) -/
 def StartsFromSubmesh (m : MDL) : Prop :=
-  ∀ i, i < m.fileHeader.lodCount.toNat → ∀ d, d < (lodAt m.modelData.lods i).meshCount.toNat →
+  ∀ i, i < m.lods.length → ∀ d, d < (lodAt m.modelData.lods i).meshCount.toNat →
     (meshAt m.modelData.meshes ((lodAt m.modelData.lods i).meshIndex.toNat + d)).startIndex =
       (firstSub m.modelData.submeshes
         (meshAt m.modelData.meshes ((lodAt m.modelData.lods i).meshIndex.toNat + d))).indexOffset
